@@ -112,11 +112,11 @@ const SEL: &[&str] = &[".a", ".md\\:x", " ", ".b", ">", ",", ":not(", ":is(", ")
 /// (no comment piece here: a comment between two identifiers, `a/*c*/a`, is re-printed with a space as separator, which
 /// reads as a descendant combinator -- but that input is not a well-formed selector, outside C08's quantifier)
 const SEL2: &[&str] = &[".", "a", "b", " ", ",", ">", ":", "*", ":is(", ":not(", ")", "[", "]", "=", "#i"];
-const VAL: &[&str] = &["calc(", "min(", "CALC(", "Clamp(", "1px", " + ", " - ", "2rpx", "(", ")", "*3", "var(--x,", " ", ",", "/*c*/", "red", ";", "!important", "#fff", ";height:", "+5", "-0", "+5px"];
+const VAL: &[&str] = &["calc(", "min(", "CALC(", "Clamp(", "1px", " + ", " - ", "2rpx", "(", ")", "*3", "var(--x,", " ", ",", "/*c*/", "red", ";", "!important", "#fff", ";height:", "+5", "-0", "+5px", "0rpx"];
 const WRAP: &[(&str, &str)] = &[("", ""), ("@media (min-width:1rpx){", "}"), ("@MEDIA (min-width:1px){", "}"), ("@layer x{", "}"), ("@supports selector(.c .d){", "}"), ("@container n (min-width: calc(1px + 2rpx)){", "}"), ("@starting-style{", "}"), ("@scope (.c) to (.d){", "}"), ("@STARTING-STYLE{", "}"), ("@document url(x){", "}")];
 /// at-rules whose block holds declarations (or keyframe / margin-box blocks of declarations), never selectors
 const DECL_WRAP: &[(&str, &str)] = &[("@page{width:", "}"), ("@page :first{margin:0 ", "}"), ("@font-face{width:", "}"), ("@keyframes k{from{width:", "}}"), ("@page{@top-left{width:", "}}"), ("@property --x{initial-value:", "}"), ("@counter-style c{pad:", "}")];
-const BOUND: &str = "selectors of <= 4 token-level pieces from 15 (dot, identifiers, combinators, colon, star, :is/:not, brackets, =, hash; plain, under @media and inside x:is(..)), selectors of <= 4 pieces from 14 selector pieces (classes, combinators, :not/:is/::slotted/:nth-child(.. of ..), comments) under 10 wrappers (none, @media, @MEDIA, @layer, @supports selector(), @container with calc, @starting-style, @STARTING-STYLE, @scope, @document), and declaration values of <= 4 pieces from 20 value pieces (calc, min, CALC, Clamp, nested parentheses, var, rpx, comments, `;` also doubled and leading, !important, a hash, a second declaration, signed numbers), and values of <= 2 pieces inside 7 declaration at-rules (@page, @font-face, @keyframes, margin boxes, @property, @counter-style); selectors of <= 2 pieces before and after `:host` rules with :host conversion, prefix and prefix sign on; the JS binding constructor agrees with from_css for 4 prefixes (none, empty, ASCII, CJK) x :host conversion on/off; only inputs the transformer accepts without a warning; class prefixes `p` and the empty prefix";
+const BOUND: &str = "selectors of <= 4 token-level pieces from 15 (dot, identifiers, combinators, colon, star, :is/:not, brackets, =, hash; plain, under @media and inside x:is(..)), selectors of <= 4 pieces from 14 selector pieces (classes, combinators, :not/:is/::slotted/:nth-child(.. of ..), comments) under 10 wrappers (none, @media, @MEDIA, @layer, @supports selector(), @container with calc, @starting-style, @STARTING-STYLE, @scope, @document), and declaration values of <= 4 pieces from 20 value pieces (calc, min, CALC, Clamp, nested parentheses, var, rpx, comments, `;` also doubled and leading, !important, a hash, a second declaration, signed numbers), and values of <= 2 pieces inside 7 declaration at-rules (@page, @font-face, @keyframes, margin boxes, @property, @counter-style); selectors of <= 2 pieces before and after `:host` rules with :host conversion, prefix and prefix sign on; 7 sheets with dotted cascade-layer names (@layer, @import layer()) x import sign x prefix x prefix sign: the names reach the output unchanged; 6 zero rpx spellings x 5 contexts; the JS binding constructor agrees with from_css for 4 prefixes (none, empty, ASCII, CJK) x :host conversion on/off; only inputs the transformer accepts without a warning; class prefixes `p` and the empty prefix";
 
 fn well_nested(css: &str) -> bool {
     let mut st = vec![];
@@ -178,6 +178,57 @@ fn check_binding(css: &str) -> Option<(String, String)> {
     }
     None
 }
+/// a dotted cascade-layer name (`@layer base.theme`, `@import .. layer(base.theme)`) is not a class selector: the name must
+/// reach the output as the same identifiers and dots, with and without an import sign, for every prefix setting
+fn check_layer(css: &str) -> Option<(String, String)> {
+    fn flat(p: &mut cssparser::Parser, out: &mut Vec<String>) {
+        while let Ok(t) = p.next_including_whitespace_and_comments().map(|t| t.clone()) {
+            match &t {
+                cssparser::Token::Ident(s) => out.push(s.to_string()),
+                cssparser::Token::Delim(c) => out.push(c.to_string()),
+                cssparser::Token::Function(_) | cssparser::Token::ParenthesisBlock | cssparser::Token::CurlyBracketBlock | cssparser::Token::SquareBracketBlock => {
+                    if let cssparser::Token::Function(n) = &t { out.push(format!("{}(", n)); } else { out.push("|".into()); }
+                    let _ = p.parse_nested_block(|q| -> Result<(), cssparser::ParseError<()>> { flat(q, out); Ok(()) });
+                    out.push("|".into());
+                }
+                _ => out.push("|".into()),
+            }
+        }
+    }
+    let names = |text: &str| -> Vec<String> { let mut pi = cssparser::ParserInput::new(text); let mut p = cssparser::Parser::new(&mut pi); let mut v = vec![]; flat(&mut p, &mut v); v };
+    let src = names(css);
+    // the dotted names of the input: maximal runs ident (. ident)+
+    let mut runs: Vec<Vec<String>> = vec![];
+    let mut i = 0;
+    while i < src.len() {
+        let mut j = i;
+        let word = |w: &String| w != "." && w != "|" && !w.ends_with('(');
+        if word(&src[j]) { while j + 2 < src.len() && src[j + 1] == "." && word(&src[j + 2]) { j += 2; } }
+        if j > i { runs.push(src[i..=j].to_vec()); }
+        i = j + 1;
+    }
+    for sign in [None, Some("S")] {
+        for prefix in [None, Some("p"), Some("")] {
+            for psign in [None, Some("PS")] {
+                let t = StyleSheetTransformer::from_css("p.wxss", css, StyleSheetOptions { class_prefix: prefix.map(|s| s.to_string()), class_prefix_sign: psign.map(|s| s.to_string()), import_sign: sign.map(|s| s.to_string()), rpx_ratio: 750., ..Default::default() });
+                if t.warnings().next().is_some() { continue; }
+                let mut text = String::new();
+                t.output().write_str(&mut text).unwrap();
+                let out = names(&text);
+                for r in &runs {
+                    if !out.windows(r.len()).any(|w| w == &r[..]) {
+                        return Some((format!("import_sign {:?}, class_prefix {:?}, class_prefix_sign {:?}: output {:?}", sign, prefix, psign, text), format!("the layer name {} unchanged", r.join(""))));
+                    }
+                }
+            }
+        }
+    }
+    None
+}
+const LAYERS: &[&str] = &[
+    "@import \"a.wxss\" layer(base.theme);", "@import url(a.wxss) layer(a.b.c) supports(display: grid) screen;", "@import 'a' layer(x.y);\n.k{top:0}",
+    "@layer base.theme{.k{top:0}}", "@layer a.b, c.d.e;", "@layer a.b{@layer c.d{.k{top:0}}}", "@media screen{@layer m.n{.k{width:1rpx}}}",
+];
 fn combos(pieces: &[&str], maxd: usize) -> Vec<String> {
     let mut out = vec![];
     let n = pieces.len();
@@ -215,6 +266,22 @@ pub fn search() -> Outcome {
             _ => {}
         }
     }
+    for css in LAYERS {
+        count += 1;
+        if let Some((got, want)) = check_layer(css) {
+            return Outcome { found: true, input: format!("layer:{}", css), observed: got, expected: want, evaluations: count, bound: BOUND.into() };
+        }
+    }
+    // zero lengths stay lengths
+    for z in ["0rpx", "+0rpx", "-0rpx", "0.0rpx", "0e3rpx"] {
+        for (a, b) in [(".a{width:", "}"), (".a{margin:calc(", " + 10px)}"), (".a{flex:1 1 ", "}"), ("@media (min-width: ", "){.a{top:0}}"), ("@keyframes k{to{left:", "}}")] {
+            let css = format!("{}{}{}", a, z, b);
+            count += 1;
+            if let Some((got, want)) = check(&css) {
+                return Outcome { found: true, input: css, observed: got, expected: want, evaluations: count, bound: BOUND.into() };
+            }
+        }
+    }
     for sel in combos(SEL, 2) {
         count += 1;
         let css = format!("{}{{width:2rpx}}:host{{top:0}}@media x{{{}{{width:1px}}}}", sel, sel);
@@ -237,6 +304,12 @@ pub fn search() -> Outcome {
 pub fn run(input: &str) -> Outcome {
     if let Some(css) = input.strip_prefix("binding:") {
         return match check_binding(css) {
+            Some((got, want)) => Outcome { found: true, input: input.into(), observed: got, expected: want, evaluations: 1, bound: "single input".into() },
+            None => Outcome { found: false, input: input.into(), observed: String::new(), expected: String::new(), evaluations: 1, bound: "single input".into() },
+        };
+    }
+    if let Some(css) = input.strip_prefix("layer:") {
+        return match check_layer(css) {
             Some((got, want)) => Outcome { found: true, input: input.into(), observed: got, expected: want, evaluations: 1, bound: "single input".into() },
             None => Outcome { found: false, input: input.into(), observed: String::new(), expected: String::new(), evaluations: 1, bound: "single input".into() },
         };
